@@ -54,3 +54,27 @@ func (c *Cache) VerifFire(key string) bool {
 	}
 	panic("verif: expiry timer did not run")
 }
+
+// VerifClearThenFire emulates an expiry timer that has already fired when Clear runs and is waiting for the
+// cache lock: the cache is cleared, then the timer callback of the item that was stored under key runs.
+func (c *Cache) VerifClearThenFire(key string) bool {
+	c.m.RLock()
+	i, ok := c.items[key]
+	c.m.RUnlock()
+	c.Clear()
+	if !ok || i.timer == nil {
+		return false
+	}
+	i.timer.Reset(0)
+	time.Sleep(3 * time.Millisecond) // the callback runs on the timer goroutine
+	return true
+}
+
+// VerifStaleGet emulates two concurrent readers: one has looked up the item stored under key (first half of Get),
+// then another Get loads evictKey (a value of n bytes) and may evict that item, then the first reader goes on
+// (second half of Get). Returns what the first reader gets.
+func (c *Cache) VerifStaleGet(key, evictKey string, n int) ([]byte, error) {
+	i := c.getItem(key)
+	_, _ = c.Get(evictKey, func() ([]byte, error) { return make([]byte, n), nil })
+	return c.getValue(i, func() ([]byte, error) { return []byte{0xEE}, nil })
+}
